@@ -139,3 +139,9 @@ Fixpoint shrink_ok (c : Q) (tr : list event) : Prop :=
 
 (* executable instance used by the trace correspondence: the estimate is read from a logged list *)
 Definition est_of_list (ps : list Q) : estimate := fun it _ _ => nth it ps 0.
+
+(* times at which the general-RK controller samples a time-dependent Hamiltonian callable during one evolve() call:
+   every trial step (accepted or not) evaluates  mpo_t(c_i * dt + t0)  for each stage i, where t0 = evolved_dt is the
+   time covered by the sub-steps accepted so far (e_pos of the event) *)
+Definition sample_times (cs : list Q) (tr : list event) : list Q :=
+  flat_map (fun e => map (fun c => c * e_dt e + e_pos e) cs) tr.
